@@ -14,7 +14,24 @@ prescribed companion of the scheduler, not the decider for interleavings.
 import itertools
 import core, zckref, universe, httpsim
 
-SCENS = ["copy", "write", "read", "validate", "feed", "feedmp", "life", "writez", "misc", "nowrite", "writefail"]
+SCENS = ["copy", "write", "read", "validate", "feed", "feedmp", "life", "writez", "misc", "nowrite", "writefail", "bigrange"]
+_big = {}
+
+
+def bigrange_file(t, seed):
+    """on-disk state with 6400 (thread 1: 7000) one-byte chunks, every other one damaged: the rendered request of about 38 KB
+    (thread 1: 42 KB) outgrows the renderer's 32 KiB initial buffer - by a different amount per thread"""
+    if (t, seed) not in _big:
+        n = 6400 + 600 * t
+        pcs = [bytes([1 + (i * 7 + t) % 250]) for i in range(n)]
+        f, h, body = zckref.build_file(pcs, comp=0, htype=1, ctype=3)
+        p = zckref.parse(f)
+        x = bytearray(f)
+        for i, (off, ln) in enumerate(zckref.extents(p)):
+            if ln and i % 2 == 0:
+                x[off] = 0
+        _big[(t, seed)] = bytes(x)
+    return _big[(t, seed)]
 
 
 def thread_data(t, seed):
@@ -64,6 +81,8 @@ def spec_line(slot, scen, d):
         return "thread %d scen=writefail a=%s" % (slot, core.prng_bytes(2048, 40 + slot).hex())
     if scen == "nowrite":
         return "thread %d scen=nowrite a=%s" % (slot, (d["content"] * 2).hex())
+    if scen == "bigrange":
+        return "thread %d scen=bigrange a=%s" % (slot, bigrange_file(slot, 0).hex())
     if scen == "misc":
         return "thread %d scen=misc a=%s b=%s" % (slot, d["zstd"].hex(), d["none"].hex())
     raise ValueError(scen)
